@@ -51,6 +51,15 @@ Theorem C09_mt_complete : forall (R : Type) (f : nat -> R + Z) c src p (s : stat
 Proof. exact @mt_complete. Qed.
 Print Assumptions C09_mt_complete.
 
+(* State::Error is final: after an error was returned to the caller, the source failed or the input
+   was empty (the coordinator is in State::Error), the phase never changes again and the
+   success-end value is never returned. *)
+Theorem C09_mt_error_sticky : forall (R : Type) (f : nat -> R + Z) c src p (s : state R) t s',
+  Fx c -> reachable f c src p s -> ph s = PErr -> step f c s t = Some s' ->
+  ph s' = PErr /\ results s' <> results s ++ [RNone].
+Proof. exact @mt_error_sticky. Qed.
+Print Assumptions C09_mt_error_sticky.
+
 (* ---- the pinned code violates the property (F14) ---- *)
 (* a worker fails while the coordinator waits in recv(): nothing can move, the call never returns *)
 Theorem C09_mt_deadlock_refuted :
